@@ -591,6 +591,12 @@ void bhkMalleableConstraint::Sync(NiStreamReversible& stream) {
 	subConstraint.Sync(stream);
 }
 
+void bhkMalleableConstraint::GetPtrs(std::set<NiPtr*>& ptrs) {
+	bhkConstraint::GetPtrs(ptrs);
+
+	subConstraint.GetPtrs(ptrs);
+}
+
 
 void bhkBallAndSocketConstraint::Sync(NiStreamReversible& stream) {
 	stream.Sync(ballAndSocket.translationA);
@@ -729,4 +735,11 @@ void bhkRagdollTemplateData::GetStringRefs(std::vector<NiStringRef*>& refs) {
 	NiObject::GetStringRefs(refs);
 
 	refs.emplace_back(&name);
+}
+
+void bhkRagdollTemplateData::GetPtrs(std::set<NiPtr*>& ptrs) {
+	NiObject::GetPtrs(ptrs);
+
+	for (auto& constraint : constraints)
+		constraint.GetPtrs(ptrs);
 }
